@@ -252,24 +252,108 @@ def plant_uniform(rng, p, cdf, ctx):
     return u
 
 
+class Arg:
+    """an `init` argument: the object passed to the API, its wire form, and its logical content
+    kind: 'none' | 's' (numbers.Integral scalar) | 'a' (array-like of such) |
+          'x' (scalar that is not numbers.Integral: 0-d array, np.bool_, float) |
+          'b' (array-like that converts to ints but whose elements are not Integral: bool/float arrays)
+    val : None | int | list of ints  (indices, or label codes when state_values are set)"""
+
+    def __init__(self, obj, kind, val):
+        self.obj, self.kind, self.val = obj, kind, val
+        self.wire = {"none": "none", "s": "s:%s" % val, "x": "x"}.get(kind) or "%s:%s" % (kind, ints(val))
+
+
+def int_form(rng, i, ctx, what="init"):
+    """the integer i as a randomly chosen instance of numbers.Integral"""
+    cands = [int, int, np.int16, np.int32, np.int64, np.intp]
+    if -128 <= i < 128:
+        cands.append(np.int8)
+    if 0 <= i < 256:
+        cands.append(np.uint8)
+    if i >= 0:
+        cands.append(np.uint64)
+    if i in (0, 1) and what in ("init", "mcsp-init"):
+        cands.append(bool)
+    t = rng.choice(cands)
+    ctx.count("form:%s:%s" % (what, t.__name__))
+    return t(i)
+
+
+def count_form(rng, i, ctx, what):
+    """ts_length / num_reps / k / size / sample_size: Python int, NumPy ints, 0-d array"""
+    if i is None:
+        return None
+    cands = [int, int, np.int32, np.int64, np.intp, np.uint8, np.uint64, lambda v: np.array(v)]
+    if what == "ts_length" and i == 0:
+        # unsigned zero: `ts_length-1` wraps around in the code (probed separately, see "ts_length_zero_unsigned")
+        cands = [int, np.int32, np.int64, np.intp]
+    if i >= 256:
+        cands = [c for c in cands if c is not np.uint8]
+    t = rng.choice(cands)
+    ctx.count("form:%s:%s" % (what, getattr(t, "__name__", "0d-array").replace("<lambda>", "0d-array")))
+    return t(i)
+
+
+def array_form(rng, l, ctx):
+    """(object, kind) for the list of ints l"""
+    nonneg = all(i >= 0 for i in l)
+    small = all(-128 <= i < 128 for i in l)
+    forms = ["list", "tuple", "int64", "int32", "int16", "intp", "npscalars", "0d-list"]
+    if small:
+        forms.append("int8")
+    if nonneg and all(i < 256 for i in l):
+        forms.append("uint8")
+    if nonneg:
+        forms.append("uint64")
+    if l and all(i in (0, 1) for i in l):
+        forms += ["boolarray", "boollist"]
+    if l:
+        forms.append("floatarray")
+    f = rng.choice(forms)
+    ctx.count("form:array:" + f)
+    if f == "list":
+        return list(l), "a"
+    if f == "tuple":
+        return tuple(l), "a"
+    if f == "npscalars":
+        ts = [np.int16, np.int32, np.int64, np.intp] + ([np.int8] if small else []) + ([np.uint8] if nonneg and all(i < 256 for i in l) else [])
+        return [rng.choice(ts)(i) for i in l], "a"
+    if f == "0d-list":
+        return [np.array(i) for i in l], "a"
+    if f == "boolarray":
+        return np.array(l, dtype=bool), "b"
+    if f == "boollist":
+        return [bool(i) for i in l], "b"
+    if f == "floatarray":
+        return np.array(l, dtype=float), "b"
+    return np.array(l, dtype=getattr(np, f)), "a"
+
+
 def gen_init(rng, n, ctx):
-    """(init object as passed to the API, wire string)"""
-    kind = rng.randrange(12)
+    """an Arg for a chain without state values (contents are state indices)"""
+    kind = rng.randrange(13)
     if kind <= 1:
         ctx.count("init:None")
-        return None, "none"
+        return Arg(None, "none", None)
     if kind <= 4:
         i = rng.randrange(n)
         ctx.count("init:scalar")
-        return (np.int64(i) if rng.random() < 0.3 else i), "s:%d" % i
+        return Arg(int_form(rng, i, ctx), "s", i)
     if kind == 5:
         i = rng.randrange(-n, 0)
         ctx.count("init:scalar-negative")
-        return i, "s:%d" % i
+        return Arg(int_form(rng, i, ctx), "s", i)
     if kind == 6:
         i = rng.choice([n, n + 1, -n - 1, 10 * n + 3, -7 * n - 1])
         ctx.count("init:scalar-out-of-range")
-        return i, "s:%d" % i
+        return Arg(int_form(rng, i, ctx), "s", i)
+    if kind == 12:
+        i = rng.randrange(n)
+        f = rng.choice(["0d-array", "np.bool_", "float", "np.float64"])
+        ctx.count("init:not-Integral:" + f)
+        obj = {"0d-array": np.array(i), "np.bool_": np.bool_(i % 2 == 1), "float": float(i), "np.float64": np.float64(i)}[f]
+        return Arg(obj, "x", None)
     ln = rng.randint(0, 4)
     if kind <= 9:
         l = [rng.randrange(n) for _ in range(ln)]
@@ -281,10 +365,26 @@ def gen_init(rng, n, ctx):
         l = [rng.randrange(n) for _ in range(max(ln, 1))]
         l[rng.randrange(len(l))] = rng.choice([n, -n - 1, 3 * n])
         ctx.count("init:array-out-of-range")
-    obj = rng.choice([list, tuple, np.array])(l)
-    if isinstance(obj, np.ndarray):
-        obj = obj.astype(int)
-    return obj, "a:" + ints(l)
+    obj, k = array_form(rng, l, ctx)
+    return Arg(obj, k, l)
+
+
+# state-value labels: every label has an integer code (what crosses the wire)
+def code_of(v):
+    if isinstance(v, (str, np.str_)):
+        return 200000 + ord(str(v)[0])
+    x = float(v)
+    return int(x) if x == int(x) else 100000 + int(round(2 * x))
+
+
+def finding(ctx, key, what, replay):
+    """a defect of the *unchanged* tree reported to the coordinator: once listed in known_findings.txt it is
+    printed as KNOWN-FINDING; until then it is only counted and stored in the evidence (unlisted_findings)"""
+    if key in ctx.known:
+        ctx.spec_fail(key, what, replay)
+    else:
+        ctx.count("unlisted-finding:" + key)
+        ctx.extra.setdefault("unlisted_findings", {}).setdefault(key, {"what": what, "replay": replay})
 
 
 # ----------------------------------------------------------------------------
@@ -335,29 +435,37 @@ def canon_X(X):
     return "dim=2|k=%d|X=%s" % (X.shape[0], intm(X.tolist()))
 
 
-def sim_case(ctx, ch, init, init_wire, reps, ts, via, dyadic, cases, tagbase, fixed_u=None, sv=None):
+def sim_case(ctx, ch, arg, reps, ts, via, dyadic, cases, tagbase, fixed_u=None, sv=None):
+    """one call on ch.mc (whose state_values currently have the codes `sv`, or None);
+    returns (protocol tokens of the call, canonical output of the code)"""
     rng = ctx.rng
     n = ch.n
-    k_draw = (1 if reps is None else reps) if init is None else 0
+    init, init_wire = arg.obj, arg.wire
+    k_draw = (1 if reps is None else reps) if arg.kind == "none" else 0
     drawn = [rng.randrange(n) for _ in range(k_draw)]
     use_gen = rng.random() < 0.25
     if use_gen:
         ctx.count("rng:Generator")
-    if sv is not None and init is not None:
+    ts_obj, reps_obj = count_form(rng, ts, ctx, "ts_length"), count_form(rng, reps, ctx, "num_reps")
+    scalar = arg.kind == "s"
+    logical = None if arg.kind == "none" else arg.val           # what expected_init sees
+    if arg.kind == "x":
+        exp = "ERR"
+    elif sv is not None and via == "simulate" and arg.kind != "none":
         # state values: simulate() first maps every requested value to its first position
-        vals = [int(init)] if isinstance(init, (int, np.integer)) else [int(i) for i in init]
+        vals = [arg.val] if scalar else list(arg.val)
         if any(v not in sv for v in vals):
             exp = "ERR"
             ctx.count("sv:value-not-found")
         else:
             idx = [sv.index(v) for v in vals]
-            exp = expected_init(n, idx[0] if isinstance(init, (int, np.integer)) else idx, reps, drawn)
+            exp = expected_init(n, idx[0] if scalar else idx, reps, drawn)
     else:
-        exp = expected_init(n, init, reps, drawn)
-    if sv is None and via == "simulate" and exp != "ERR" and init is not None:
-        # simulate() looks the value up among the states: only 0 <= init < n exist
-        l = [int(init)] if isinstance(init, (int, np.integer)) else [int(i) for i in init]
-        if any(i < 0 for i in l):
+        exp = expected_init(n, logical, reps, drawn)
+    if sv is None and via == "simulate" and exp != "ERR" and arg.kind != "none":
+        # simulate() looks the value up among the states: only Integral 0 <= init < n exist
+        l = [arg.val] if scalar else list(arg.val)
+        if any(i < 0 for i in l) or (arg.kind == "b" and l):
             exp = "ERR"
     # plant uniforms adaptively along the reference walk
     U, fallback_steps = [], 0
@@ -386,20 +494,24 @@ def sim_case(ctx, ch, init, init_wire, reps, ts, via, dyadic, cases, tagbase, fi
         try:
             if interpreted:
                 with interpreted_kernels():
-                    X = f(ts, init=init, num_reps=reps, random_state=rs)
+                    X = f(ts_obj, init=init, num_reps=reps_obj, random_state=rs)
             else:
-                X = f(ts, init=init, num_reps=reps, random_state=rs)
+                X = f(ts_obj, init=init, num_reps=reps_obj, random_state=rs)
         except ValueError:
             return "ERR:ValueError", None, rs
         except IndexError:
             return "ERR:IndexError", None, rs
-        return canon_X(X), np.asarray(X), rs
+        X = np.asarray(X)
+        if sv is not None and via == "simulate":
+            X = np.array([code_of(v) for v in X.ravel()], dtype=np.int64).reshape(X.shape)   # labels -> codes
+        return canon_X(X), X, rs
 
     # Pre-flight: the same source run by CPython (kernels' .py_func), where a read outside an array
     # raises instead of returning garbage / crashing the process.  Only if that is clean is the
     # compiled kernel run (and it is the compiled result that is compared with the model).
     out, X, rs = call(interpreted=True)
-    unsafe = out == "ERR:IndexError" or (sv is None and X is not None and X.size and (X.min() < 0 or X.max() >= n))
+    returns_values = sv is not None and via == "simulate"
+    unsafe = out == "ERR:IndexError" or (not returns_values and X is not None and X.size and (X.min() < 0 or X.max() >= n))
     if unsafe:
         ctx.count("sim:unsafe-in-preflight")
     else:
@@ -411,7 +523,8 @@ def sim_case(ctx, ch, init, init_wire, reps, ts, via, dyadic, cases, tagbase, fi
     replay = {"op": "simulate", "sparse": ch.sparse, "via": via, "n": n, "init": init_wire, "num_reps": reps,
               "ts_length": ts, "P_rows": [[c, [x.hex() for x in p]] for c, p, _ in ch.rows],
               "uniforms": [[x.hex() for x in r] for r in U], "drawn": drawn, "code": out,
-              "state_values": sv, "generator": use_gen}
+              "state_values": sv, "generator": use_gen, "init_repr": repr(init), "ts_repr": repr(ts_obj),
+              "num_reps_repr": repr(reps_obj)}
     key = "simulate_sparse" if ch.sparse else "simulate_dense"
     # ---- spec oracle on the code's output ----
     if exp == "ERR" or ts == 0:
@@ -426,13 +539,16 @@ def sim_case(ctx, ch, init, init_wire, reps, ts, via, dyadic, cases, tagbase, fi
         dim, st = exp
         if rs.shape_mismatch:
             ctx.spec_fail(key + "_shape", "uniforms requested with shape %s, documented %s" % rs.shape_mismatch[::-1], replay)
+        elif rs.uq or rs.iq:
+            ctx.spec_fail(key + "_stream", "the call did not consume the documented random numbers "
+                          "(%d uniform arrays, %d integer arrays left)" % (len(rs.uq), len(rs.iq)), replay)
         want_shape = (ts,) if dim == 1 else (len(st), ts)
         if X.shape != want_shape:
             ctx.spec_fail(key + "_shape", "shape %s, documented %s" % (X.shape, want_shape), replay)
         else:
             X2 = X.reshape(len(st), ts)
             bad = None
-            if sv is not None:
+            if returns_values:
                 if any(int(v) not in sv for v in X2.ravel()):
                     bad = "a returned value is not a state value"
                     st = []
@@ -472,14 +588,18 @@ def sim_case(ctx, ch, init, init_wire, reps, ts, via, dyadic, cases, tagbase, fi
     # ---- correspondence ----
     nontrivial = (exp != "ERR" and ts >= 2 and k >= 1)
     scs = ["float"] + (["rat"] if dyadic else [])
+    toks = None
     for sc in scs:
-        line = "C10 %s init=%s reps=%s drawn=%s via=%s ts=%d u=%s" % (
-            ch.wire(sc), init_wire, "none" if reps is None else str(reps), ints(drawn), via, ts,
+        t = "init=%s reps=%s drawn=%s via=%s ts=%d u=%s" % (
+            init_wire, "none" if reps is None else str(reps), ints(drawn), via, ts,
             (fxm if sc == "float" else ratm)(U))
-        if sv is not None:
+        toks = toks or t
+        line = "C10 %s %s" % (ch.wire(sc), t)
+        if sv is not None and via == "simulate":
             line += " sv=" + ints(sv)
         impl = ch.code_cdfs(sc) + "|" + out
         cases.append(Case(line, impl, nontrivial=nontrivial, tag=tagbase + ":" + sc))
+    return toks, out
 
 
 class interpreted_kernels:
@@ -556,7 +676,14 @@ def run(ctx):
                 "dense and CSR (canonical and hand-built with stored zeros / unsorted columns); every init kind "
                 "(None, scalar, negative, out of range, array, empty array) x num_reps in {None,0,1,2,3} x simulate/"
                 "simulate_indices; uniforms planted adaptively along the walk: 0, 1-2^-53, exact cdf break-points and their "
-                "neighbours, values >= cdf[-1]; non-trivial = valid request with at least one transition")
+                "neighbours, values >= cdf[-1]; non-trivial = valid request with at least one transition. "
+                "Round 2: object HISTORIES on one MarkovChain (state_values assigned / permuted / dtype changed / None / back / "
+                "wrong length between simulate and simulate_indices calls by value, list of values, None, index; each call "
+                "judged against the current labels and compared with the model both singly and as a whole history); "
+                "ARGUMENT FORMS: init as Python int/bool, np.int8..int64, uint8/uint64, intp, 0-d arrays, np.bool_, floats, "
+                "lists/tuples/arrays of every integer dtype, lists of NumPy scalars and of 0-d arrays, bool and float arrays; "
+                "ts_length/num_reps/sample_size/k as NumPy ints and 0-d arrays; the number and shape of the random numbers "
+                "consumed must be exactly the documented ones (recording stream, no leftovers)")
     ctx.assumptions.append("NumPy's RandomState reproducibility (equal seeds give equal streams) is trusted; the harness "
                            "injects the uniforms through a RandomState subclass, so the model sees the numbers the kernel saw")
 
@@ -566,8 +693,8 @@ def run(ctx):
         mc = MarkovChain(sparse.csr_matrix(P) if c.get("sparse") else P)
         ch = Chain(mc)
         init = c["init"]
-        iw = "none" if init is None else ("s:%d" % init if isinstance(init, int) else "a:" + ints(init))
-        sim_case(ctx, ch, init, iw, c.get("reps"), c["ts"], c.get("via", "indices"), False, cases,
+        arg = Arg(init, "none" if init is None else ("s" if isinstance(init, int) else "a"), init)
+        sim_case(ctx, ch, arg, c.get("reps"), c["ts"], c.get("via", "indices"), False, cases,
                  "corpus", fixed_u=(float.fromhex(c["u"]) if "u" in c else None))
         ctx.count("corpus-cases")
 
@@ -590,32 +717,172 @@ def run(ctx):
                 continue
             ch = Chain(mc)
             for _ in range(ctx.n(3, 4)):
-                init, iw = gen_init(rng, n, ctx)
+                arg = gen_init(rng, n, ctx)
                 reps = rng.choice([None, None, None, 0, 1, 2, 3])
                 ts = rng.choice([0, 1, 2, 3, 5, 8, 13]) if rng.random() < 0.9 else rng.randint(20, ctx.n(60, 400))
                 via = rng.choice(["indices", "indices", "simulate"])
-                sim_case(ctx, ch, init, iw, reps, ts, via, dyadic, cases, "sparse" if sp else "dense")
-            if rng.random() < 0.5:
-                # annotated chain: simulate() looks the initial values up and returns values
-                sv = rng.sample(range(-20, 40), n)
-                if n >= 2 and rng.random() < 0.2:
-                    sv[rng.randrange(1, n)] = sv[0]
-                mc.state_values = sv
-                kind = rng.randrange(5)
-                if kind == 0:
-                    init, iw = None, "none"
-                elif kind <= 2:
-                    v = rng.choice(sv) if rng.random() < 0.85 else 99
-                    init, iw = v, "s:%d" % v
+                sim_case(ctx, ch, arg, reps, ts, via, dyadic, cases, "sparse" if sp else "dense")
+
+    # ---- object histories: one MarkovChain, state_values re-assigned between the calls ------------
+    # every call is judged by the oracle against the CURRENT state_values and compared with the model twice:
+    # as a single call (state_values explicit) and as part of the whole history (histdense / histsparse)
+    def gen_labels(n, kindhint=None):
+        """(object for the setter, list of label objects, codes)"""
+        kind = kindhint or rng.choice(["int", "int", "int32", "float-half", "float-integral", "str"])
+        if kind in ("int", "int32", "float-integral"):
+            vals = rng.sample(range(-20, 40), n)
+            if n >= 2 and rng.random() < 0.15:
+                vals[rng.randrange(1, n)] = vals[0]              # duplicated label: first position wins
+            arr = np.array(vals, dtype={"int": np.int64, "int32": np.int32, "float-integral": float}[kind])
+        elif kind == "float-half":
+            vals = [v + 0.5 for v in rng.sample(range(-20, 40), n)]
+            arr = np.array(vals)
+        else:
+            vals = rng.sample("abcdefghijklmnopqrstuvwxyz", n)
+            arr = np.array(vals)
+        ctx.count("hist:labels:" + kind)
+        obj = arr if rng.random() < 0.6 or kind in ("int32",) else [x for x in arr.tolist()]
+        return obj, list(arr), [code_of(v) for v in arr]
+
+    def value_arg(labels, codes, stale):
+        """an init given by VALUE for the current labelling (sometimes a value that is not / no longer a label)"""
+        pool = list(zip(labels, codes))
+        kind = rng.randrange(6)
+        if kind == 0:
+            return Arg(None, "none", None)
+
+        def pick():
+            if stale and rng.random() < 0.2:
+                ctx.count("hist:init-from-an-earlier-labelling")
+                return rng.choice(stale)
+            return rng.choice(pool)
+        if kind <= 3:
+            v, c = pick()
+            is_int = isinstance(v, (int, np.integer))
+            r = rng.random()
+            if is_int and r < 0.5:
+                obj = int_form(rng, int(v), ctx, what="value")
+            elif r < 0.65:
+                obj = np.array(v)            # 0-d array: np.asarray(value).ndim == 0, a single value
+                ctx.count("form:value:0d-array")
+            else:
+                obj = v if rng.random() < 0.5 else (v.item() if hasattr(v, "item") else v)
+            return Arg(obj, "s", c)
+        picks = [pick() for _ in range(rng.randint(0, 3))]
+        vs, cs = [p[0] for p in picks], [p[1] for p in picks]
+        if not vs:
+            return Arg([], "a", [])
+        same = len({type(v) for v in vs}) == 1
+        obj = np.array(vs) if (same and rng.random() < 0.5) else list(vs)
+        if isinstance(obj, list) and any(isinstance(v, (str, np.str_)) for v in vs) and not all(isinstance(v, (str, np.str_)) for v in vs):
+            obj = [vs[0]]                     # (a list mixing strings and numbers is not a list of values)
+            cs = [cs[0]]
+        return Arg(obj, "a", cs)
+
+    for hi in range(ctx.n(120, 1200)):
+        n = rng.choice([2, 3, 3, 4, 5, 6])
+        rows, dyadic = gen_matrix(rng, n, ctx)
+        sp = rng.random() < 0.5
+        try:
+            mc = MarkovChain(make_sparse(rng, rows, ctx) if sp else np.array(rows))
+        except ValueError:
+            continue
+        ch = Chain(mc)
+        labelings = []                # earlier (labels, codes)
+        cur = None                    # (obj, labels, codes) or None
+        stale = []
+        sv0 = None
+        if rng.random() < 0.6:
+            cur = gen_labels(n)
+            mc.state_values = cur[0]
+            labelings.append(cur)
+            sv0 = cur[2]
+        ops, outs = [], []
+        n_calls_by_value = 0
+        for oi in range(rng.randint(4, 9)):
+            if rng.random() < 0.35:
+                # ---- re-assignment of state_values ----
+                kind = rng.choice(["permute", "permute", "fresh", "dtype", "none", "back", "wrong-length"])
+                new, want_ok = None, True
+                if kind == "permute" and cur is not None:
+                    perm = list(range(n))
+                    rng.shuffle(perm)
+                    arr = np.asarray(cur[0])[perm]
+                    new = (arr if rng.random() < 0.5 else arr.tolist(), [cur[1][i] for i in perm], [cur[2][i] for i in perm])
+                elif kind == "dtype" and cur is not None and all(isinstance(v, (int, np.integer)) for v in cur[1]):
+                    arr = np.asarray(cur[0]).astype(rng.choice([float, np.int32, np.int16]))
+                    new = (arr, list(arr), list(cur[2]))
+                elif kind == "back" and labelings:
+                    new = rng.choice(labelings)
+                elif kind == "wrong-length":
+                    o, l, c = gen_labels(n + rng.choice([-1, 1]))
+                    new, want_ok = (o, l, c), False
+                elif kind == "none":
+                    new = "none"
                 else:
-                    l = [rng.choice(sv) for _ in range(rng.randint(0, 3))]
-                    if l and rng.random() < 0.15:
-                        l[0] = -77
-                    init, iw = (np.array(l, dtype=int) if rng.random() < 0.5 else l), "a:" + ints(l)
-                ctx.count("sv:cases")
-                sim_case(ctx, ch, init, iw, rng.choice([None, None, 2]), rng.choice([1, 2, 4, 7]), "simulate",
-                         dyadic, cases, ("sparse" if sp else "dense") + "-sv", sv=sv)
-                mc.state_values = None
+                    kind = "fresh"
+                    new = gen_labels(n)
+                ctx.count("hist:set:" + kind)
+                try:
+                    mc.state_values = None if new == "none" else new[0]
+                    out = "set-ok"
+                except ValueError:
+                    out = "ERR:ValueError"
+                if (out == "set-ok") != want_ok:
+                    ctx.spec_fail("state_values_setter", "assignment of %r: %s" % (None if new == "none" else new[0], out),
+                                  {"op": "state_values", "n": n, "value": repr(None if new == "none" else new[0])})
+                if out == "set-ok":
+                    if cur is not None:
+                        stale += [(v, c) for v, c in zip(cur[1], cur[2])]
+                    cur = None if new == "none" else new
+                    if cur is not None and want_ok:
+                        labelings.append(cur)
+                ops.append("o%d.kind=set o%d.sv=%s" % (oi, oi, "none" if new == "none" else ints(new[2])))
+                outs.append(out)
+                continue
+            # ---- a call ----
+            via = rng.choice(["simulate", "simulate", "simulate", "indices"])
+            codes = None if cur is None else cur[2]
+            if via == "simulate" and cur is not None:
+                cur_stale = [(v, c) for v, c in stale if c not in codes]
+                arg = value_arg(cur[1], cur[2], cur_stale)
+                if arg.kind != "none":
+                    n_calls_by_value += 1
+            else:
+                arg = gen_init(rng, n, ctx)
+            reps = rng.choice([None, None, None, 1, 2])
+            ts = rng.choice([1, 2, 3, 5, 8])
+            toks, out = sim_case(ctx, ch, arg, reps, ts, via, False, cases,
+                                 ("sparse" if sp else "dense") + "-hist-call", sv=codes)
+            ops.append("o%d.kind=call " % oi + " ".join("o%d.%s" % (oi, t) for t in toks.split(" ")))
+            outs.append(out)
+        ctx.count("hist:histories")
+        if n_calls_by_value >= 2:
+            ctx.count("hist:with>=2-calls-by-value")
+        wire = ch.wire("float").replace("dense ", "histdense ", 1).replace("sparse ", "histsparse ", 1)
+        cases.append(Case("C10 %s sv0=%s nops=%d %s" % (wire, "none" if sv0 is None else ints(sv0), len(ops), " ".join(ops)),
+                          " ## ".join(outs), nontrivial=True, tag="history"))
+
+    # ---- ts_length = 0 given as an unsigned NumPy integer (interpreted kernels only: never run compiled) ----
+    mc0 = MarkovChain(np.array([[0.5, 0.5], [0.25, 0.75]]))
+    for z in (np.uint8(0), np.uint16(0)):
+        rs = Planted(uniforms=[])
+        try:
+            import warnings
+            with interpreted_kernels(), warnings.catch_warnings():
+                warnings.simplefilter("ignore")
+                X = mc0.simulate_indices(z, init=0, random_state=rs)
+            out = "returned shape %s" % (np.shape(X),)
+        except ValueError:
+            out = "ERR:ValueError"
+        except IndexError:
+            out = "ERR:IndexError"
+        ctx.count("probe:ts_length-unsigned-zero:" + out.split(" ")[0])
+        if out != "ERR:ValueError":
+            finding(ctx, "ts_length_zero_unsigned",
+                    "simulate_indices(ts_length=%r, init=0): %s; with a Python int 0 it raises ValueError. `ts_length-1` wraps "
+                    "around for unsigned NumPy integers, 255/65535 uniforms are drawn for a (k, 0) output and the kernel "
+                    "writes out[i, 0] outside the array" % (z, out), {"op": "simulate_indices", "ts_length": repr(z), "init": 0})
 
     # ---- the constructor's checks: which matrices are chains at all -----------------------------
     from fractions import Fraction
@@ -699,7 +966,9 @@ def run(ctx):
                 ctx.spec_fail("seed_range", "state outside range", {"P": rows, "seed": seed})
 
     # ---- mc_sample_path --------------------------------------------------------------------------
-    for _ in range(ctx.n(150, 1500)):
+    # init: a state in every numbers.Integral form, a distribution in several array forms, or (what the
+    # code then treats as a one-point distribution) a scalar that is not numbers.Integral
+    for _ in range(ctx.n(250, 2500)):
         n = rng.choice([2, 3, 4, 6, 10])
         rows, dyadic = gen_matrix(rng, n, ctx)
         try:
@@ -708,50 +977,80 @@ def run(ctx):
             continue
         ch = Chain(mc)
         ts = rng.choice([1, 2, 4, 9])
-        use_dist = rng.random() < 0.6
-        if use_dist:
+        ts_obj = count_form(rng, ts, ctx, "sample_size")
+        mode = rng.choice(["dist", "dist", "state", "state", "state", "not-Integral"])
+        zero_d_int = None
+        if mode == "dist":
             dist, ddy = gen_row(rng, n, ctx)
-            dcdf = seq_cumsum(dist)
-            u0 = plant_uniform(rng, dist, dcdf, ctx)
-            x0, fb = ref_step(dist, dcdf, u0)
-            if fb:
-                ctx.count("mcsp:u0>=cdf[-1]")
-            init_arg = rng.choice([list, np.array])(dist)
+            form = rng.choice(["list", "tuple", "array", "np-scalars"])
+            ctx.count("form:mcsp-dist:" + form)
+            init_arg = {"list": list(dist), "tuple": tuple(dist), "array": np.array(dist),
+                        "np-scalars": [np.float64(x) for x in dist]}[form]
+        elif mode == "state":
+            x0 = rng.choice([rng.randrange(n), rng.randrange(n), rng.randrange(n), n, -1])
+            init_arg, ddy, dist = int_form(rng, x0, ctx, what="mcsp-init"), True, None
         else:
-            x0 = rng.choice([rng.randrange(n), rng.randrange(n), n, -1])
-            init_arg, ddy, dist, u0 = x0, True, None, None
-        U, s = [], x0
+            v = rng.randrange(n)
+            f = rng.choice(["0d-int-array", "float", "np.bool_"])
+            ctx.count("form:mcsp-init:" + f)
+            if f == "0d-int-array":
+                init_arg, dist, zero_d_int = np.array(v), [float(v)], v
+            elif f == "float":
+                init_arg, dist = float(v), [float(v)]
+            else:
+                init_arg, dist = np.bool_(v % 2 == 1), [float(v % 2)]
+            ddy = False
+        use_dist = dist is not None
+        if use_dist:
+            dcdf = seq_cumsum(dist)
+            u0 = plant_uniform(rng, dist, dcdf, ctx) if mode == "dist" else rng.random()
+            x0, fb = ref_step(dist, dcdf, u0)
+            if fb and mode == "dist":
+                ctx.count("mcsp:u0>=cdf[-1]")
+        else:
+            u0 = None
+        U, s0 = [], x0
         if 0 <= x0 < n:
             for t in range(ts - 1):
-                cols, p, cdf = ch.rows[s]
+                cols, p, cdf = ch.rows[s0]
                 u = plant_uniform(rng, p, cdf, ctx)
-                s = cols[ref_step(p, cdf, u)[0]]
+                s0 = cols[ref_step(p, cdf, u)[0]]
                 U.append(u)
             Us = [U]
         else:
             Us = []
         uq = ([np.float64(u0)] if use_dist else []) + [np.array(Us, dtype=float).reshape(len(Us), ts - 1)]
+        P_arg = np.array(rows) if rng.random() < 0.7 else [list(r) for r in rows]
+
         def call_mcsp(interpreted):
             rs = Planted(uniforms=list(uq))
             try:
                 if interpreted:
                     with interpreted_kernels():
-                        X = mc_sample_path(np.array(rows), init=init_arg, sample_size=ts, random_state=rs)
+                        X = mc_sample_path(P_arg, init=init_arg, sample_size=ts_obj, random_state=rs)
                 else:
-                    X = mc_sample_path(np.array(rows), init=init_arg, sample_size=ts, random_state=rs)
-                return np.asarray(X), canon_X(X)
+                    X = mc_sample_path(P_arg, init=init_arg, sample_size=ts_obj, random_state=rs)
+                return np.asarray(X), canon_X(X), rs
             except ValueError:
-                return None, "ERR:ValueError"
+                return None, "ERR:ValueError", rs
             except IndexError:
-                return None, "ERR:IndexError"
-        X, out = call_mcsp(True)          # pre-flight, see sim_case
+                return None, "ERR:IndexError", rs
+        X, out, rs = call_mcsp(True)          # pre-flight, see sim_case
         if out != "ERR:IndexError" and not (X is not None and X.size and (X.min() < 0 or X.max() >= n)):
-            X, out = call_mcsp(False)
+            X, out, rs = call_mcsp(False)
         else:
             ctx.count("mcsp:unsafe-in-preflight")
-        replay = {"op": "mc_sample_path", "P": [[x.hex() for x in r] for r in rows], "init": str(init_arg),
-                  "u0": None if u0 is None else u0.hex(), "uniforms": [u.hex() for u in U], "code": out}
-        if not (0 <= x0 < n):
+        replay = {"op": "mc_sample_path", "P": [[x.hex() for x in r] for r in rows], "init": repr(init_arg),
+                  "sample_size": repr(ts_obj), "u0": None if u0 is None else u0.hex(),
+                  "uniforms": [u.hex() for u in U], "code": out}
+        if mode == "not-Integral":
+            # the code takes the scalar for a one-point distribution (one extra uniform, start at state 0);
+            # for an integer-valued 0-d array that is not what "scalar(int)" in the docstring promises
+            if zero_d_int is not None and (X is None or int(X[0]) != zero_d_int or rs.log[:1] == [np.float64(u0)]):
+                finding(ctx, "mc_sample_path_0d_int_init",
+                        "mc_sample_path(init=np.array(%d)) treats the 0-d integer array as a distribution: draws an extra "
+                        "uniform and starts at state %s" % (zero_d_int, None if X is None else int(X[0])), replay)
+        elif not (0 <= x0 < n):
             if X is not None:
                 ctx.spec_fail("mc_sample_path_init", "initial state %d accepted" % x0, replay)
         elif X is None:
@@ -759,7 +1058,11 @@ def run(ctx):
         else:
             bad = None
             X = np.asarray(X)
-            if X.shape != (ts,):
+            if rs.shape_mismatch or rs.uq:
+                bad = ("random numbers consumed differ from the documented ones (%s)" %
+                       ("request of shape %s where %s was due" % rs.shape_mismatch[::-1] if rs.shape_mismatch
+                        else "%d planted arrays left" % len(rs.uq)))
+            elif X.shape != (ts,):
                 bad = "shape %s" % (X.shape,)
             elif use_dist and inv_cdf_ok(dist, dcdf, u0, int(X[0])):
                 bad = "X_0: " + inv_cdf_ok(dist, dcdf, u0, int(X[0]))
@@ -801,13 +1104,14 @@ def run(ctx):
             ctx.count("drv:q-setter")
         else:
             d = qe.DiscreteRV(rng.choice([list, np.array])(q))
-        idx = d.draw(k=kdraw, random_state=rs)
+        k_obj = count_form(rng, kdraw, ctx, "drv-k")
+        idx = d.draw(k=k_obj, random_state=rs)
         replay = {"op": "DiscreteRV.draw", "q": [x.hex() for x in q], "uniforms": [u.hex() for u in us],
                   "code": np.asarray(idx).tolist()}
         Qc = [float(x) for x in d.Q]
         bad = None
-        if np.shape(idx) != (kdraw,) or rs.shape_mismatch:
-            bad = "shape %s for k=%d" % (np.shape(idx), kdraw)
+        if np.shape(idx) != (kdraw,) or rs.shape_mismatch or rs.uq:
+            bad = "shape %s for k=%r (uniforms: %s)" % (np.shape(idx), k_obj, rs.shape_mismatch or "%d arrays left" % len(rs.uq))
         else:
             for u, j in zip(us, idx):
                 bad = inv_cdf_ok(q, cdf, u, int(j))
@@ -846,6 +1150,37 @@ def run(ctx):
             f1 = fxs if sc == "float" else rats
             cases.append(Case("C10 draw sc=%s cdf=%s u=%s" % (sc, f1(cdf), f1(ul)), ints(gl),
                               nontrivial=len(ul) > 0, tag="draw:" + sc))
+    # random.draw(cdf, size) with `size` a NumPy integer (Python-level entry)
+    for _ in range(ctx.n(30, 200)):
+        n = rng.choice([2, 3, 7])
+        q, _d = gen_row(rng, n, ctx)
+        cdf = seq_cumsum(q)
+        size = rng.choice([1, 2, 5])
+        size_obj = rng.choice([np.int64, np.int32, np.intp, np.uint8])(size)
+        us = [plant_uniform(rng, q, cdf, ctx) for _ in range(size)]
+        calls = []
+
+        def fake_random2(sz=None, _us=us):
+            calls.append(sz)
+            return _us[0] if sz is None else np.array(_us[:int(sz)], dtype=float)
+        with mock.patch.object(np.random, "random", fake_random2):
+            got = qru.draw(np.array(cdf), size_obj)
+        ctx.count("form:draw-size:" + type(size_obj).__name__)
+        rep = {"op": "random.draw", "cdf": [x.hex() for x in cdf], "size": repr(size_obj), "uniforms": [u.hex() for u in us],
+               "code": repr(got)}
+        if np.shape(got) != (size,):
+            finding(ctx, "random_draw_numpy_int_size",
+                    "random.draw(cdf, size=%r) returned %r (shape %s) instead of %d draws: the Python-level entry tests "
+                    "isinstance(size, int)" % (size_obj, got, np.shape(got), size), rep)
+            gl, ul = [int(got)], us[:1]
+        else:
+            gl, ul = [int(x) for x in got], us
+        bad = None
+        for u, j in zip(ul, gl):
+            bad = bad or inv_cdf_ok(q, cdf, u, j)
+        if bad:
+            ctx.spec_fail("random_draw", bad, rep)
+        cases.append(Case("C10 draw sc=float cdf=%s u=%s" % (fxs(cdf), fxs(ul)), ints(gl), tag="draw-npsize:float"))
     # random.draw called from compiled code (the @overload path); the uniforms are those Numba's own
     # generator yields for the seed, observed by a second compiled function with the same seed
     try:
